@@ -231,6 +231,9 @@ func verifFillP2(p *p2Claims, src *P2Claims) {
 
 // verifJSONMarshal is what the engine runs for encoding/json.Marshal.
 func verifJSONMarshal(v interface{}) ([]byte, error) {
+	if verifL4.active {
+		return l4marshal(v)
+	}
 	if m, ok := v.(json.Marshaler); ok {
 		return m.MarshalJSON()
 	}
@@ -246,6 +249,9 @@ func verifJSONMarshal(v interface{}) ([]byte, error) {
 
 // verifJSONUnmarshal is what the engine runs for encoding/json.Unmarshal.
 func verifJSONUnmarshal(data []byte, v interface{}) error {
+	if verifL4.active {
+		return l4unmarshal(data, v)
+	}
 	if u, ok := v.(json.Unmarshaler); ok {
 		return u.UnmarshalJSON(data)
 	}
